@@ -137,6 +137,8 @@ class _Transformer:
         for st in stmts:
             if _is_prange_for(st):
                 out += self.make_region(st, bound)
+                # names assigned inside a parallel body are private to its iterations: they are not bound afterwards
+                continue
             elif isinstance(st, ast.If):
                 st.body = self.transform_block(st.body, bound)
                 st.orelse = self.transform_block(st.orelse, bound) if st.orelse else []
